@@ -32,6 +32,8 @@ type C10Case struct {
 	// Warm: before the faults are switched on, the same provider serves the same kind of request (and the metadata, certificate
 	// and attribute endpoints) once without any fault. What it may have kept from then must not paper over the failure.
 	Warm bool `json:"warm,omitempty"`
+	// Blackout: the backing store is down: every storage operation the request makes fails
+	Blackout bool `json:"blackout,omitempty"`
 }
 
 var c10Scenarios = []string{
@@ -140,6 +142,18 @@ func c10Build(scenario string, variant int, now time.Time) (world.Spec, obs.HTTP
 		hr = obs.HTTPReq{Method: "GET", Path: cfg.Route("metadata")}
 	case "metadata-unsigned":
 		hr = obs.HTTPReq{Method: "GET", Path: cfg.Route("metadata")}
+	}
+	if strings.HasPrefix(scenario, "metadata") {
+		// the optional parts of the document: organisation and contact person
+		if (variant/2)%2 == 1 {
+			spec.IdP.Organisation = &world.OrgSpec{Name: "Org", DisplayName: "Organisation", URL: "https://org.example"}
+		}
+		if (variant/4)%2 == 1 {
+			spec.IdP.Contact = &world.ContactSpec{ContactType: "technical", Company: "Org", GivenName: "G", SurName: "S", Email: "ops@org.example", Phone: "+41"}
+		}
+	}
+	switch scenario {
+	case "sso-post", "sso-redirect", "sso-post-signed", "sso-redirect-signed", "callback-post-done", "callback-redirect-done", "callback-body-done", "callback-pending", "logout", "logout-noslo", "attrquery", "metadata-signed", "metadata-unsigned":
 	case "certificate":
 		hr = obs.HTTPReq{Method: "GET", Path: cfg.Route("certificate")}
 	case "ready":
@@ -164,6 +178,12 @@ type c10Result struct {
 func c10Run(c C10Case) c10Result {
 	now := time.Now()
 	spec, hr := c10Build(c.Scenario, c.Variant, now)
+	if c.Blackout {
+		c.Faults = nil
+		for _, op := range []string{"Health", "GetCA", "GetMetadataSigningKey", "GetResponseSigningKey", "GetEntityByID", "GetEntityIDByAppID", "CreateAuthRequest", "AuthRequestByID", "SetUserinfoWithUserID", "SetUserinfoWithLoginName"} {
+			c.Faults = append(c.Faults, world.Fault{Op: op, Occurrence: 0, Kind: "error"})
+		}
+	}
 	if !c.Warm {
 		spec.Faults = c.Faults
 	}
@@ -192,8 +212,14 @@ func c10Run(c C10Case) c10Result {
 		w.Store.SetFaults(c.Faults) // also resets the call counters: occurrences count from here
 		w.Store.ResetLog()
 	}
-	rep := obs.Do(w.Handler, hr)
+	rep, hang := doTerminating(w, hr)
 	res := c10Result{ops: map[string]int{}, status: rep.Status}
+	if hang != "" {
+		key, what, _ := strings.Cut(hang, "\x00")
+		res.fired = true
+		res.vs = append(res.vs, ev.V("C10/"+key, "%s with %v: %s", c.Scenario, c.Faults, what))
+		return res
+	}
 	calls := w.Store.Calls()
 	firstFault := -1
 	for i, cl := range calls {
@@ -288,6 +314,7 @@ func TestC10Enum(t *testing.T) {
 	runPlain(t, col, "TestC10", func(fail func(*ev.Violation, any)) {
 		matrix := map[string][]string{}
 		singles, pairs, fired := 0, 0, 0
+		hung := false
 		for _, sc := range c10Scenarios {
 			for v := 0; v < variants; v++ {
 				points := c10FaultPoints(sc, v)
@@ -304,6 +331,7 @@ func TestC10Enum(t *testing.T) {
 				for _, alg := range []string{"bogus", "sha512"} {
 					cases = append(cases, C10Case{Scenario: sc, Variant: v, AlgFault: alg})
 				}
+				cases = append(cases, C10Case{Scenario: sc, Variant: v, Blackout: true}, C10Case{Scenario: sc, Variant: v, Blackout: true, Warm: true})
 				singles += len(cases)
 				stride, off := 1, 0
 				if !thorough {
@@ -324,13 +352,19 @@ func TestC10Enum(t *testing.T) {
 					}
 				}
 				for _, c := range cases {
+					if hung {
+						break // a request that never ends keeps its goroutine: one such finding is enough, every further one costs 40 s
+					}
 					r := c10Run(c)
 					nt := r.fired
 					if nt {
 						fired++
 					}
-					col.Case(nt, ev.Fingerprint(c.Scenario, c.Faults, c.AlgFault), []string{"scenario/" + c.Scenario, fmt.Sprintf("fired=%v", r.fired), fmt.Sprintf("faults=%d", len(c.Faults))}, nil)
+					col.Case(nt, ev.Fingerprint(c.Scenario, c.Faults, c.AlgFault, c.Warm, c.Blackout), []string{"scenario/" + c.Scenario, fmt.Sprintf("fired=%v", r.fired), fmt.Sprintf("faults=%d", len(c.Faults)), fmt.Sprintf("warm=%v", c.Warm), fmt.Sprintf("blackout=%v", c.Blackout)}, nil)
 					for _, vv := range r.vs {
+						if strings.Contains(vv.Key, "blocked-forever") || strings.Contains(vv.Key, "does-not-terminate") {
+							hung = true
+						}
 						fail(vv, c)
 					}
 				}
